@@ -21,6 +21,7 @@ _LABELS = {
     "bool": (True, False),
     "dt": (1_600_000_300, 1_600_000_100, 1_600_000_200, 1_600_000_000),  # seconds
     "cat": ("c", "a", "b", "z"),  # categories in this (unsorted) order, "z" unused when G <= 3
+    "td": (300, 100, 200, 0),  # seconds
 }
 CAT_CATEGORIES = ("z", "c", "a", "b")  # category order != sorted order, 'z' unused
 
@@ -36,6 +37,10 @@ def label_table(kind: str, seed: int = 0):
 
 
 def key_can_null(kind: str) -> bool:
+    if kind in ("int_I64", "bool_na"):  # pandas nullable (masked) dtypes hold pd.NA
+        return True
+    if kind in ("str_S", "str_U"):
+        return False
     return kind.split("_")[0] not in ("int", "bool") and kind != "range"
 
 
@@ -44,7 +49,30 @@ def make_key(ks, kind: str, seed: int = 0, name=None):
     base = kind.split("_")[0]
     tab = label_table(kind, seed)
     n = len(ks)
-    if base == "int":
+    if kind == "int_I64":
+        arr = pd.Series([None if k < 0 else tab[k] for k in ks], dtype="Int64")
+        labels = [int(v) for v in tab]
+    elif kind == "bool_na":
+        arr = pd.Series([None if k < 0 else tab[k] for k in ks], dtype="boolean")
+        labels = [bool(v) for v in tab]
+    elif kind == "float_F64":
+        arr = pd.Series([None if k < 0 else tab[k] for k in ks], dtype="Float64")
+        labels = [float(v) for v in tab]
+    elif kind == "float_f4":
+        arr = np.array([np.nan if k < 0 else tab[k] for k in ks], dtype="f4")
+        labels = [float(v) for v in tab]
+    elif kind == "str_S":
+        if any(k < 0 for k in ks):
+            raise ValueError("byte strings cannot be null")
+        arr = np.array([tab[k].encode() for k in ks], dtype="S2") if n else np.empty(0, dtype="S2")
+        labels = [v.encode() for v in tab]
+    elif base == "td":
+        unit = kind.split("_")[1] if "_" in kind else "ns"
+        mult = _UNIT_NS["s"] // _UNIT_NS[unit]
+        ints = [C.INT_MIN if k < 0 else tab[k] * mult for k in ks]
+        arr = np.array(ints, dtype="i8").view(f"m8[{unit}]")
+        labels = [int(v) * _UNIT_NS["s"] for v in tab]
+    elif base == "int":
         if any(k < 0 for k in ks):
             raise ValueError("int keys cannot be null")
         dt = {"int": "i8", "int_i4": "i4", "int_u1": "u1"}.get(kind, "i8")
@@ -106,7 +134,7 @@ def expected_order(present_ids, ks, kinds, labels_per_key, sort: bool, bool_leni
     else:
         tup = lambda g: g
     single_cat = (not multi) and kinds[0].split("_")[0] == "cat"
-    single_bool = bool_lenient and (not multi) and kinds[0].split("_")[0] == "bool"
+    single_bool = bool_lenient and (not multi) and kinds[0] == "bool"  # NumPy booleans only
     if sort or single_cat or single_bool:
         # categoricals always come in category order; bool keys as (False, True)
         keyf = [label_sort_key(k) for k in kinds]
